@@ -2243,9 +2243,62 @@ class OtlUnit(Unit):
             for n in range(1, 18):
                 for pat in ("zero", "lead", "last-word-zero", "alternating", "limits"):
                     yield ["dev", fmt, n, pat]
+        # ItemVariationData rows: region count x word count (0..regions+2) x long-word flag
+        for nreg in range(0, 5):
+            for words in range(0, nreg + 3):
+                for longw in (False, True):
+                    yield ["vd", nreg, words, longw]
 
     def check(self, case, rec):
         getattr(self, "check_" + case[0])(case, rec)
+
+    # ---- VarData rows ----------------------------------------------------------------------
+    def check_vd(self, case, rec):
+        """an ItemVariationData subtable on its own: region count x word count (NumShorts, also LARGER than
+        the region count - the reader tolerates that as padding) x long-word flag; compile -> decompile and
+        an independent reading of the row"""
+        from fontTools.ttLib.tables.otBase import OTTableWriter, OTTableReader
+
+        _k, nreg, words, longw = case
+        rec.nontrivial()
+        big = (1 << 20) if longw else 300
+        small = 300 if longw else 5
+        row = [(big + i if i < min(words, nreg) else small - i) * (-1 if i % 2 else 1) for i in range(nreg)]
+        vd = ot.VarData()
+        vd.ItemCount, vd.NumShorts, vd.VarRegionCount = 2, words | (0x8000 if longw else 0), nreg
+        vd.VarRegionIndex = list(range(nreg))
+        vd.Item = [list(row), [0] * nreg]
+        font = bigfont()
+        w = OTTableWriter()
+        try:
+            vd.compile(w, font)
+            data = w.getAllData()
+        except Exception as e:
+            rec.violation("vardata:compile:%s" % type(e).__name__, "VarData with %d regions, NumShorts %d, longWords=%s does not compile: %r" % (nreg, words, longw, e))
+            return
+        if words > nreg:
+            rec.witness("VarData with more words than regions")
+        bsz, ssz = (4, 2) if longw else (2, 1)
+        n1, n2 = min(nreg, words), max(nreg, words)
+        rowlen = n1 * bsz + (n2 - n1) * ssz
+        exp_len = 6 + 2 * nreg + 2 * rowlen
+        if len(data) != exp_len:
+            rec.violation("vardata:length", "VarData %d regions, NumShorts %d, longWords=%s: %d bytes, expected %d" % (nreg, words, longw, len(data), exp_len))
+            return
+        off = 6 + 2 * nreg
+        got = []
+        for i in range(nreg):
+            if i < n1:
+                got.append(int.from_bytes(data[off + i * bsz: off + (i + 1) * bsz], "big", signed=True))
+            else:
+                o = off + n1 * bsz + (i - n1) * ssz
+                got.append(int.from_bytes(data[o: o + ssz], "big", signed=True))
+        if got != row:
+            rec.violation("vardata:reader", "independent reading of the first row gives %s, expected %s" % (got, row))
+        vd2 = ot.VarData()
+        vd2.decompile(OTTableReader(data), font)
+        if [list(r) for r in vd2.Item] != [row, [0] * nreg] or vd2.NumShorts != vd.NumShorts:
+            rec.violation("vardata:decompile", "decompile gives %r (NumShorts %r), expected %r" % (vd2.Item, vd2.NumShorts, [row, [0] * nreg]))
 
     # ---- Device --------------------------------------------------------------------------
     def check_dev(self, case, rec):
